@@ -68,6 +68,10 @@ var witnesses = []witness{
 	{name: "INTERVAL used as a value", stmt: "SELECT INTERVAL 'a' b > 1 JSON"},
 	{name: "CREATE EVENT with a NULL interval", stmt: "CREATE EVENT ev ON SCHEDULE EVERY NULL DAY DO SELECT 1"},
 	{name: "DISTINCT inside a scalar function call", stmt: "SELECT DATEDIFF(DISTINCT '2400-01-01', '2000-01-01')"},
+	{name: "convert using a character set without an encoder", stmt: "SELECT CONVERT('a' USING ucs2)"},
+	{name: "empty ANSI_QUOTES identifier compared with a procedure parameter", setup: []string{"SET sql_mode = 'ANSI_QUOTES'", `CREATE PROCEDURE p3(q VARCHAR(20)) SELECT q = ""`}, stmt: "CALL p3('a')"},
+	{name: "date_format of the zero date with a week specifier", stmt: "SELECT DATE_FORMAT(0, '%x')"},
+	{name: "cast to a datetime with a precision above 6", stmt: "SELECT CAST('2020-01-01' AS DATETIME(7))"},
 	{name: "C52 wkb line string announcing more points than it carries", stmt: "SELECT ST_GeomFromWKB(x'0102000000030000000000000000000000000000000000000000000000000000000000000000000000')"},
 }
 
